@@ -465,7 +465,8 @@ func (s *Sim) getPending(rid string) bool {
 	s.mu.Lock()
 	defer s.mu.Unlock()
 	for _, q := range s.tr.reqs {
-		if q.Type == "get" && q.Name == name && !q.Delivered {
+		if q.Type == "get" && q.Name == name && !q.Delivered && q.Rf != 2 && q.Rf != 3 {
+			// (a reset re-fetch is not a load anybody waits for)
 			return true
 		}
 	}
